@@ -39,8 +39,42 @@ class Ren(ast.NodeTransformer):
         return node
 
 
+class Alias(ast.NodeTransformer):
+    """Reads of parameter `old` go through a fresh alias `old_a = old` inserted at the top of the function."""
+    def __init__(self, fn, old):
+        self.fn, self.old, self.inside = fn, old, False
+
+    def visit_FunctionDef(self, node):
+        if node is self.fn:
+            self.inside = True
+            self.generic_visit(node)
+            self.inside = False
+            k = 1 if node.body and isinstance(node.body[0], ast.Expr) and isinstance(node.body[0].value, ast.Constant) else 0
+            node.body.insert(k, ast.Assign(targets=[ast.Name(id=self.old + '_a', ctx=ast.Store())], value=ast.Name(id=self.old, ctx=ast.Load()), lineno=node.lineno))
+            return node
+        if self.inside:
+            self.generic_visit(node)
+        return node
+
+    def visit_Name(self, node):
+        if self.inside and node.id == self.old and isinstance(node.ctx, ast.Load):
+            return ast.copy_location(ast.Name(id=self.old + '_a', ctx=node.ctx), node)
+        return node
+
+
+def params_of(fn):
+    from avs.core.canon import _binding_counts
+    cnt = _binding_counts(fn)
+    return sorted(a.arg for a in fn.args.posonlyargs + fn.args.args + fn.args.kwonlyargs if cnt.get(a.arg) == 1 and a.arg != 'self')
+
+
+MODE = 'rename'
+
+
 def job(args):
     prop, rel, qual, old = args
+    alias = old.startswith('alias:')
+    old = old.split(':')[-1]
     base = Source()
     tree = ast.parse(base.text(rel))
     # locate the function again in the fresh tree
@@ -50,7 +84,8 @@ def job(args):
             target = n
     if target is None:
         return (prop, rel, qual, old, 'skip', '')
-    Ren(target, old, old + '_r').visit(tree)
+    (Alias(target, old) if alias else Ren(target, old, old + '_r')).visit(tree)
+    ast.fix_missing_locations(tree)
     text = ast.unparse(tree)
     try:
         chk = run_rules(prop, Source(overrides={rel: text}), 'quick')
@@ -70,7 +105,8 @@ def job(args):
 
 
 def main():
-    props = sys.argv[1:]
+    props = [a for a in sys.argv[1:] if not a.startswith('--')]
+    alias = '--alias' in sys.argv
     jobs = []
     for prop in props:
         src = Source()
@@ -83,8 +119,8 @@ def main():
                 fn = src.func(rel, q)
             except AnalysisError:
                 continue
-            for name in locals_of(fn):
-                jobs.append((prop, rel, q, name))
+            for name in (params_of(fn) if alias else locals_of(fn)):
+                jobs.append((prop, rel, q, ('alias:' if alias else '') + name))
     with mp.Pool(16) as pool:
         res = pool.map(job, jobs)
     bad = [r for r in res if r[4] not in ('ok', 'skip')]
